@@ -13,6 +13,7 @@ Import RecordSetNotations.
 From BCL Require Import Model.Vm Proofs.VmSpecProofs.
 Open Scope N_scope.
 From BCL Require Import Model.Api Model.Compile Spec.Syntax Spec.AstSem Proofs.ParserInvProofs Proofs.T2Expr Proofs.T2Proofs Proofs.T1Expr Proofs.T1Proofs Proofs.Language.
+From BCL Require Import Proofs.VerifyFrag Proofs.CompileVerifies Proofs.Limits.
 
 Theorem C03_setfield : forall p m i m1 name t n fs up a stk,
   read_uvarint m = Some (i, m1) -> get_const p i = Some (VStr name) ->
@@ -89,6 +90,18 @@ Theorem C03_language : forall name src,
     (res_match (fst (run_program p)) (rr_res rr) /\ obs_match (snd (run_program p)) rr).
 Proof. first [exact Language.bcl_language | apply Language.bcl_language]. Qed.
 Print Assumptions C03_language.
+
+Theorem C03_language_within_limits : forall name src,
+  let pr := parse_whole name src in
+  let ts := fst (lex [src]) in
+  pr_ok pr = true -> pr_oof pr = false -> pr_panic pr = false ->
+  ps_constants (pr_stats pr) < 2^64 ->
+  exists p, ast_program ts = Some p /\
+    (within_limits p ->
+     let rr := execute (pr_prog pr) false false in
+     res_match (fst (run_program p)) (rr_res rr) /\ obs_match (snd (run_program p)) rr).
+Proof. first [exact Limits.bcl_language_within_limits | apply Limits.bcl_language_within_limits]. Qed.
+Print Assumptions C03_language_within_limits.
 
 From BCL Require Import Model.Api.
 Example C03_example :
